@@ -4,8 +4,9 @@ import H2.Proofs.HpackSplit
 
 Property theorems only; lemmas are in `H2/Proofs/Hpack{Int,Str,Dec,Block}.lean`.
 
-* model: `Hpack.Dec.next` (mirror of `nextField`), `Hpack.readInt`, `Hpack.readString`,
-  `Hpack.Block.feed` (the `previousHeaderBytes` loop of `handleHeaderFrame`);
+* model: `Hpack.Dec.next` (mirror of `nextField`), `Hpack.Dec.skipUpdates` (what a cut-short `nextField`
+  hands back), `Hpack.readInt`, `Hpack.readString`, `Hpack.Block.feed` (the `previousHeaderBytes` /
+  `fieldSeen` loop of `handleHeaderFrame`);
 * specification: `Hpack.Spec` — `Repr`, `ser`/`Wire` (RFC 7541 §5–§6), `apply` (§2.3, §4, §6), `step`.
 The static table, `maxIndex` and the default table size come from `H2.Gen` (regenerated from `hpack.go`).
 -/
@@ -79,7 +80,7 @@ example : Dec.next {} true 0 (ser (.literal .incremental (.lit [107] false) [118
   simpa using h
 
 /-- **dec_rejects** (index 0 or past the table, for a field or for a literal's name; size update above
-the SETTINGS limit, after a field, or in a CONTINUATION): a well-formed representation without RFC
+the SETTINGS limit, or after a field of the block, in this frame or an earlier one): a well-formed representation without RFC
 meaning on the current table is an error, never a field -/
 theorem dec_rejects (st : DecState) (bs : Bool) (fp : Nat) (r : Repr) (w rest : Bytes) (hw : Wire r w)
     (ha : apply st (if bs then fp else fp + 1) r = none) : Dec.next st bs fp (w ++ rest) = .err := by
@@ -132,70 +133,59 @@ theorem dec_sound_partial (st : DecState) (bs : Bool) (fp : Nat) (b : Bytes) (st
 
 /-- a block in one HEADERS frame with END_HEADERS: the loop of `handleHeaderFrame` returns the header
 list and table RFC 7541 assigns to the block and fails exactly on the blocks RFC 7541 makes invalid
-(unknown index, misplaced or oversized size update, bad Huffman, overflowing integer, truncation) —
-for every block that does not consist of size updates only (F05) -/
-theorem block_whole (dec : DecState) (b : Bytes) (hle : dec.maxSize ≤ dec.limit) (hnb : b ≠ [] → NotBareUpdates dec b) :
+(unknown index, misplaced or oversized size update, bad Huffman, overflowing integer, truncation); the
+stream remembers whether the block had a field. Blocks of size updates only included (F05 repaired). -/
+theorem block_whole (dec : DecState) (b : Bytes) (hle : dec.maxSize ≤ dec.limit) :
     match Spec.decodeBlock dec b with
-    | some (st', fs) => Block.feed ⟨dec, []⟩ false true b = .ok ⟨st', []⟩ fs
-    | none => ∃ fs, Block.feed ⟨dec, []⟩ false true b = .err fs := feed_whole dec b hle hnb
-example : Block.feed {} false true [0x82, 0x86] = .ok ⟨{}, []⟩
+    | some (st', fs) => Block.feed ⟨dec, [], false⟩ false true b = .ok ⟨st', [], !fs.isEmpty⟩ fs
+    | none => ∃ fs, Block.feed ⟨dec, [], false⟩ false true b = .err fs := feed_whole dec b false hle
+example : Block.feed {} false true [0x82, 0x86] = .ok ⟨{}, [], true⟩
     [⟨[58, 109, 101, 116, 104, 111, 100], [71, 69, 84], false⟩, ⟨[58, 115, 99, 104, 101, 109, 101], [104, 116, 116, 112], false⟩] := by
   decide +kernel
+/-- a block that holds a size update and nothing else: no field is handed on (the unrepaired loop handed
+on one with an empty name and value) -/
+example : Block.feed {} false true [0x20] = .ok ⟨{ maxSize := 0 }, [], false⟩ [] := by decide +kernel
 
 /-- **history_sync**, full statement: over every sequence of blocks the decoder does what the
 specification does -/
 def history_sync_full : Prop :=
   ∀ (blocks : List Bytes) (dec : DecState), dec.maxSize ≤ dec.limit → decodeBlocks dec blocks = specBlocks dec blocks
 
-/-- **history_sync_partial**: proved for all histories in which no block consists of size updates only
-(the class of known finding F05); by induction over the blocks: same header lists, same dynamic table
-after every block, same verdict -/
-theorem history_sync_partial (blocks : List Bytes) (dec : DecState) (hle : dec.maxSize ≤ dec.limit)
-    (hnb : ∀ d b, b ∈ blocks → b ≠ [] → NotBareUpdates d b) : decodeBlocks dec blocks = specBlocks dec blocks :=
-  blocks_sync blocks dec hle hnb
+/-- **history_sync**: by induction over the blocks — same header lists, same dynamic table after every
+block, same verdict, for every history (F05 repaired: blocks of size updates only are no exception) -/
+theorem history_sync : history_sync_full := fun blocks dec hle => blocks_sync blocks dec hle
 example : decodeBlocks {} [[0x40, 0x01, 0x61, 0x01, 0x62], [0xbe]] =
     some ({ dyn := [([0x61], [0x62])] }, [[⟨[0x61], [0x62], false⟩], [⟨[0x61], [0x62], false⟩]]) := by decide +kernel
-
-/-- F05: the model has the defect — a block holding only a size update yields a field nobody sent -/
-theorem history_sync_witness : ¬ history_sync_full := by
-  intro h
-  have := h [[0x20]] {} (by decide)
-  revert this
-  decide +kernel
+/-- the input that failed before the repair: a block holding only a size update, then a block that needs
+the table it announced -/
+example : decodeBlocks {} [[0x20], [0x3f, 0xe1, 0x1f, 0x40, 0x01, 0x61, 0x01, 0x62]] =
+    some ({ dyn := [([0x61], [0x62])] }, [[], [⟨[0x61], [0x62], false⟩]]) := by decide +kernel
 
 /-- frames of one block, in the order sent: agreement of the split delivery and of the delivery in one
 frame with the specification -/
 def SplitAgrees (dec : DecState) (frames : List Bytes) : Prop :=
   match Spec.decodeBlock dec frames.flatten with
-  | some (d, fs) => feedFrames ⟨dec, []⟩ true frames [] = .ok ⟨d, []⟩ fs ∧
-      Block.feed ⟨dec, []⟩ false true frames.flatten = .ok ⟨d, []⟩ fs
-  | none => (∃ fs, feedFrames ⟨dec, []⟩ true frames [] = .err fs) ∧
-      (∃ fs, Block.feed ⟨dec, []⟩ false true frames.flatten = .err fs)
+  | some (d, fs) => feedFrames ⟨dec, [], false⟩ true frames [] = .ok ⟨d, [], !fs.isEmpty⟩ fs ∧
+      Block.feed ⟨dec, [], false⟩ false true frames.flatten = .ok ⟨d, [], !fs.isEmpty⟩ fs
+  | none => (∃ fs, feedFrames ⟨dec, [], false⟩ true frames [] = .err fs) ∧
+      (∃ fs, Block.feed ⟨dec, [], false⟩ false true frames.flatten = .err fs)
 
 /-- **split_invariance**, full statement: cutting a header block into HEADERS + CONTINUATION frames at
 any octets changes nothing -/
 def split_invariance_full : Prop :=
   ∀ (dec : DecState) (frames : List Bytes), frames ≠ [] → dec.maxSize ≤ dec.limit → SplitAgrees dec frames
 
-/-- **split_invariance_partial**: proved for every block that does not open with a dynamic table size
-update (octet `001xxxxx`; known findings F04/F05 are exactly about those): whatever the cuts — any
-number of frames, empty frames, a cut inside an integer, a string or a Huffman code — the carry-over
-loop of `handleHeaderFrame` ends with the header list, table and verdict of the whole block. -/
-theorem split_invariance_partial (dec : DecState) (frames : List Bytes) (hne : frames ≠ [])
-    (hle : dec.maxSize ≤ dec.limit) (hnu : startsWithUpdateOctet frames.flatten = false) : SplitAgrees dec frames := by
-  have hg := frames_gen frames dec [] true 0 [] hne (fun _ => ⟨rfl, rfl⟩) (by simp [hnu])
-  have hw := feed_whole dec frames.flatten hle (by
-    intro hb st' r hs
-    cases hf : frames.flatten with
-    | nil => exact hb hf
-    | cons c cs =>
-      rw [hf] at hs hnu
-      obtain ⟨_, _, h1, h2⟩ := step_none_start _ _ _ _ _ _ _ hs
-      simp [startsWithUpdateOctet] at hnu
-      omega)
+/-- **split_invariance**: whatever the cuts — any number of frames, empty frames, a cut inside an
+integer, a string or a Huffman code, inside, between or right behind the dynamic table size updates a
+block may open with (F04/F05 repaired) — the carry-over loop of `handleHeaderFrame` ends with the header
+list, table and verdict of the whole block. -/
+theorem split_invariance : split_invariance_full := by
+  intro dec frames hne hle
+  have hg := frames_gen frames dec [] false true 0 [] hne (fun _ => rfl) (fun h => by cases h)
+  have hw := feed_whole dec frames.flatten false hle
   unfold SplitAgrees
-  have hd : Spec.decodeBlock dec frames.flatten = Spec.blockFuel (frames.flatten.length + 1) dec 0 frames.flatten := by
-    unfold Spec.decodeBlock
+  have hd : Spec.decodeBlock dec frames.flatten = blk dec 0 frames.flatten := by
+    unfold Spec.decodeBlock blk
     have : ¬ dec.maxSize > dec.limit := by omega
     simp [this]
   simp only [List.nil_append] at hg
@@ -204,42 +194,45 @@ theorem split_invariance_partial (dec : DecState) (frames : List Bytes) (hne : f
     simp only [hb] at hw
     rw [hd] at hb
     refine ⟨?_, hw⟩
-    cases hr : feedFrames ⟨dec, []⟩ true frames [] with
+    cases hr : feedFrames ⟨dec, [], false⟩ true frames [] with
     | err fs => exact ⟨fs, rfl⟩
     | ok s acc' =>
       simp only [hr] at hg
-      obtain ⟨_, _, _, hsome⟩ := hg
+      obtain ⟨_, _, _, _, hsome⟩ := hg
       rw [hb] at hsome; cases hsome
   | some p =>
     obtain ⟨d, fs⟩ := p
     simp only [hb] at hw
     rw [hd] at hb
     refine ⟨?_, hw⟩
-    cases hr : feedFrames ⟨dec, []⟩ true frames [] with
+    cases hr : feedFrames ⟨dec, [], false⟩ true frames [] with
     | err e => simp only [hr] at hg; rw [hb] at hg; cases hg
     | ok s acc' =>
-      obtain ⟨dec', r⟩ := s
+      obtain ⟨dec', r, sn'⟩ := s
       simp only [hr] at hg
-      obtain ⟨hr0, fs', hacc, hsome⟩ := hg
+      obtain ⟨hr0, fs', hacc, hsn, hsome⟩ := hg
       rw [hb] at hsome
       injection hsome with hsome
       injection hsome with h1 h2
       subst h1 h2 hr0
-      rw [hacc]
+      rw [hacc, hsn, seenAfter_zero]
 example : SplitAgrees {} [[0x40, 0x01], [0x61], [], [0x01, 0x62, 0xbe]] :=
-  split_invariance_partial {} _ (by simp) (by decide) (by decide)
+  split_invariance {} _ (by simp) (by decide)
 
-/-- F04: the model has the defect — `20 40 01 | 61 01 62` is a valid block, and is rejected when cut there -/
-theorem split_invariance_witness : ¬ split_invariance_full := by
-  intro h
-  have := h {} [[0x20, 0x40, 0x01], [0x61, 0x01, 0x62]] (by simp) (by decide)
-  unfold SplitAgrees at this
-  have hd : Spec.decodeBlock {} [[0x20, 0x40, 0x01], [0x61, 0x01, 0x62]].flatten =
-      some ({ maxSize := 0 }, [⟨[0x61], [0x62], false⟩]) := by decide +kernel
-  have hf : feedFrames {} true [[0x20, 0x40, 0x01], [0x61, 0x01, 0x62]] [] = .err [] := by decide +kernel
-  rw [hd] at this
-  simp only at this
-  rw [hf] at this
-  exact absurd this.1 (by intro h; cases h)
+/-- the inputs that failed before the repair (F04: `20 40 01 | 61 01 62`, the CONTINUATION was read from
+the size update again and rejected; cut inside and right behind the updates likewise) -/
+example : feedFrames {} true [[0x20, 0x40, 0x01], [0x61, 0x01, 0x62]] [] =
+    .ok ⟨{ maxSize := 0 }, [], true⟩ [⟨[0x61], [0x62], false⟩] := by decide +kernel
+example : feedFrames {} true [[0x20, 0x3f], [0xe1], [0x1f], [0x40, 0x01, 0x61, 0x01, 0x62]] [] =
+    .ok ⟨{ dyn := [([0x61], [0x62])] }, [], true⟩ [⟨[0x61], [0x62], false⟩] := by decide +kernel
+
+/-- what is carried over between frames never contains an applied size update: the octets a cut-short
+`nextField` hands back are a suffix of its input, and the step from there is the step on the input -/
+theorem carry_is_rest (st : DecState) (bs : Bool) (fp : Nat) (x y : Bytes) :
+    Spec.step st bs fp (x ++ y) =
+      Spec.step (Dec.skipUpdates st bs fp x).1 bs fp ((Dec.skipUpdates st bs fp x).2 ++ y) :=
+  skip_step bs fp y x.length st x (Nat.le_refl _)
+example : Dec.skipUpdates {} true 0 [0x20, 0x3f, 0xe1, 0x1f, 0x40, 0x01] = ({}, [0x40, 0x01]) := by decide +kernel
+example : Dec.skipUpdates {} true 0 [0x20, 0x3f, 0xe1] = ({ maxSize := 0 }, [0x3f, 0xe1]) := by decide +kernel
 
 end H2.Props.C03
